@@ -35,7 +35,7 @@ inductive Kind | thr | direct | badHeader | sync
   deriving DecidableEq, Repr, Inhabited
 
 structure Block where
-  kind : Kind := .thr
+  kind : Kind := .sync
   inSize : Nat := 0          -- thr->in_size: Compressed Data + padding + Check
   needIn : Nat := 0          -- input position at which the Block decoder returns `ret`
   data : List UInt8 := []    -- output produced before `ret`
@@ -111,7 +111,6 @@ inductive MPc
   | rowOk (k : RowK) (canStart : Bool)     -- back in stream_decode_mt with LZMA_OK from read_output_and_wait
   | ret (r : Ret)                          -- about to return r from stream_decode_mt
   | init1 | init2 | init3 | init4 | init5  -- SEQ_BLOCK_THR_INIT: counters; get_thread; buffers; start; enable partial
-  | copy                                   -- SEQ_BLOCK_THR_RUN: about to write into thr->in (no mutex)
   | tell (filled : Nat) (noInputLeft : Bool)
   | endSet (i : Nat) (k : EndK)            -- threads_end: set THR_EXIT + signal, per worker
   | endJoin (i : Nat) (k : EndK)           -- threads_end: join, per worker
@@ -522,7 +521,10 @@ def step (s : State) : Label → Option State
       let b := blk s w.blk
       match w.pc with
       | .decode lim pu =>
-        if w.inPos ≤ inPos' && inPos' ≤ lim && inPos' ≤ b.needIn && w.outPos ≤ outPos' && outPos' ≤ b.data.length then
+        -- (last conjunct: with the whole Block consumed the Block decoder always delivers a verdict, see block_decode():
+        --  comp_done && uncomp_done, comp_done && out not full => LZMA_DATA_ERROR, else LZMA_STREAM_END)
+        if w.inPos ≤ inPos' && inPos' ≤ lim && inPos' ≤ b.needIn && w.outPos ≤ outPos' && outPos' ≤ b.data.length
+            && (verdict || decide (inPos' < b.inSize)) then
           let w1 := { w with inPos := inPos', outPos := outPos' }
           if verdict then
             if inPos' = b.needIn && outPos' = b.data.length then some (setW s i { w1 with pc := .fin1 b.ret }) else none
@@ -604,6 +606,6 @@ def stStatus (blocks : List Block) : Ret := (stRun blocks).2
 /-- Well-formed input: what the Block decoder contract (C03) guarantees about each item. -/
 def Block.WF (b : Block) : Prop :=
   b.ret ≠ OK ∧ b.ret ≠ TIMED_OUT ∧ b.needIn ≤ b.inSize ∧ (b.ret = END → b.needIn = b.inSize) ∧
-  (b.kind = .badHeader → b.ret ≠ END ∧ b.data = []) ∧ (b.kind = .sync → b.data = [])
+  (b.kind = .badHeader → b.ret ≠ END ∧ b.data = []) ∧ (b.kind = .sync → b.data = []) ∧ (b.kind = .thr → 0 < b.needIn)
 
 end XzVerif.MtDec
